@@ -27,6 +27,9 @@ type C04Case struct {
 	ExGen   *GenSpec   `json:"exgen,omitempty"` // Example(seed) clause
 	ExSeeds []int      `json:"exseeds,omitempty"`
 	Fresh   bool       `json:"fresh,omitempty"` // compare the Example values with those of a fresh process
+	// the second run (same seed) has output flags set that the first one had not: -rapid.v, -rapid.log, -rapid.debug
+	// change what is printed, not what is drawn
+	R2Flags string `json:"r2flags,omitempty"`
 }
 
 type c04 struct{}
@@ -98,6 +101,9 @@ func (c04) Gen(dt *drv.T, c *Ctx) any {
 	cs.Case.Cfg.ShrinkNS = pick(dt, "shrink", int64(0), 0, 0, 3e7)
 	cs.Case.Cfg.NoFailFile = chance(dt, "nofailfile", 30)
 	cs.Noise = genNoise(dt, c)
+	if chance(dt, "r2flags", 35) {
+		cs.R2Flags = pick(dt, "whichflags", "log", "debug", "v", "v+debug", "log+debug")
+	}
 	if chance(dt, "exclause", 30) {
 		cs.ExGen = GenGenSpec(dt, GenCfg{Depth: 2, SmallInts: true, RejectHeavy: true})
 		cs.ExSeeds = drv.SliceOfN(drv.IntRange(0, 1<<30), 1, 4).Draw(dt, "exseeds")
@@ -215,8 +221,15 @@ func (c04) Run(c *Ctx, csAny any) Outcome {
 	if len(cs.Noise) > 0 {
 		out.Classes = append(out.Classes, "with-noise")
 	}
-	r2 := runProg(cfg, prog)
-	if v := compareRuns(cfg, r1, r2, fmt.Sprintf("same seed %d", cfg.Seed)); v != nil {
+	cfg2 := cfg
+	if cs.R2Flags != "" {
+		cfg2.Log = strings.Contains(cs.R2Flags, "log")
+		cfg2.Debug = strings.Contains(cs.R2Flags, "debug")
+		cfg2.Verbose = cfg.Verbose || strings.Contains(cs.R2Flags, "v")
+		out.Classes = append(out.Classes, "second-run-with-output-flags")
+	}
+	r2 := runProg(cfg2, prog)
+	if v := compareRuns(cfg, r1, r2, fmt.Sprintf("same seed %d (second run with flags %q)", cfg.Seed, cs.R2Flags)); v != nil {
 		out.Viol = prefixKey("C04", v)
 		return out
 	}
